@@ -443,7 +443,7 @@ fn table_dispatch(ctx: &Ctx, arg: &dyn Fn(&str) -> Option<String>) {
 					}
 				}
 				// keys this build IMPORTED (the table keys: OpenSSL PKCS#8 v1 Ed25519 / EC / RSA among them), exported again
-				for k in &keys {
+				for k in keys.iter().filter(|k| k.kp.as_remote().is_none()) {
 					lines.push_str(&format!("{} {} {} {}\n", k.alg, crate::util::hex(&k.kp.serialize_der()), crate::util::hex(k.kp.public_key_raw()), crate::util::hex(k.kp.serialize_pem().as_bytes())));
 				}
 				let _ = std::fs::write(std::path::Path::new(&dir).join(format!("exported-{}.txt", crate::BACKEND)), lines);
